@@ -352,7 +352,11 @@ def corr(ctx):
         der = rng.choice([0, 0, 1, 1, 2, -1])
         sel = None
         if der >= 1 and rng.random() < 0.6:
-            sel = sorted(rng.sample(range(nb), rng.randint(1, nb))) if rng.random() < 0.8 else list(range(nb))
+            sel = rng.sample(range(nb), rng.randint(1, nb)) if rng.random() < 0.8 else list(range(nb))
+            if rng.random() < 0.35:
+                sel.sort()                     # otherwise random order (the selection is a set of bands, not a sequence)
+            elif rng.random() < 0.3:
+                sel.sort(reverse=True)
         EminP = rng.choice([None, None, dy(rng, -4, 0, 8)])
         EmaxP = rng.choice([None, None, dy(rng, 0, 4, 8)])
         eCenter = np.array([[float(c) for c in cen]])
@@ -831,6 +835,8 @@ def system_oracle(ctx, scale):
             selb = sorted(rng.sample(range(NB), rng.randint(1, NB))) if NB > 1 else [0]
             if doubled:      # select whole Kramers pairs: the bands of a degenerate group have equal weights
                 selb = sorted({2 * (b // 2) for b in selb} | {2 * (b // 2) + 1 for b in selb})
+            if rng.random() < 0.7:
+                rng.shuffle(selb)     # the order of the selection must not matter
             Ef2 = np.array([rng.uniform(lo, hi), hi + 1.0])          # a second Fermi array seen by the same weight object
             # a third one with the same length and the same end points as Ef, other interior points (non-uniform:
             # the tetrahedron path accepts any Fermi array)
